@@ -50,7 +50,10 @@ RULE_ADDED = (
               's. '
               ' '
               'Round 14: a third of the verifications with terminal size, locale and similar va'
-              'riables exported (COLUMNS, LINES, TERM, LANG ...). ')
+              'riables exported (COLUMNS, LINES, TERM, LANG ...). '
+              ' '
+              "Round 15: attested keys hash equal to the operator's only in its first / last 4."
+              '.31 bytes (Ledger and SGX). ')
 RULE = RULE + " " + RULE_ADDED.strip()
 ASSUMPTIONS = [
     "stdout of the commands is parsed by label ('UD value:', 'Hash:', ...)",
